@@ -28,6 +28,15 @@ type c19Case struct {
 	TCP        string   // disabled refused ackown ackwrong stall garbage
 	SendErr    string   `json:",omitempty"` // answer of the transport to the direct ping: "" (sent), "local" (plain error), "remote" (udp write error)
 	HelperVers []uint8  `json:",omitempty"` // per-helper protocol maximum (mixed clusters); overrides HelperPMax
+	IntervalMs int      `json:",omitempty"` // ProbeInterval override in ms (default 1000); below the 300 ms ProbeTimeout the pending record expires before the direct wait ends
+	PriorSusp  bool     `json:",omitempty"` // x is already suspected when the probe starts (the ping travels in a compound with the suspect message)
+}
+
+func (c c19Case) pi() time.Duration {
+	if c.IntervalMs > 0 {
+		return time.Duration(c.IntervalMs) * time.Millisecond
+	}
+	return c19PI
 }
 
 func (c c19Case) verOf(i int) uint8 {
@@ -45,6 +54,12 @@ func (c c19Case) String() string {
 	if len(c.HelperVers) > 0 {
 		se += fmt.Sprintf(" helper-versions=%v", c.HelperVers)
 	}
+	if c.IntervalMs > 0 {
+		se += fmt.Sprintf(" probe-interval=%dms", c.IntervalMs)
+	}
+	if c.PriorSusp {
+		se += " target-already-suspected"
+	}
 	return fmt.Sprintf("indirect=%d pmax=%d score=%d direct=%s helpers=%v tcp=%s%s", c.Indirect, c.HelperPMax, c.Score, c.Direct, c.Helpers, c.TCP, se)
 }
 
@@ -54,15 +69,15 @@ type c19Expect struct {
 }
 
 func c19Ref(c c19Case) c19Expect {
-	interval := c19PI * time.Duration(c.Score+1)
+	interval := c.pi() * time.Duration(c.Score+1)
 	at := func(s string) (time.Duration, bool) {
 		switch s {
 		case "own@1", "third@1":
 			return time.Millisecond, true
 		case "own@pt-":
-			return c19PT - time.Millisecond, true
+			return c19PT - time.Millisecond, c19PT-time.Millisecond < interval
 		case "own@pt+":
-			return c19PT + time.Millisecond, true
+			return c19PT + time.Millisecond, c19PT+time.Millisecond < interval
 		case "own@i-":
 			return interval - time.Millisecond, true
 		}
@@ -85,7 +100,9 @@ func c19Ref(c c19Case) c19Expect {
 			received += 2
 		}
 	}
-	if c.TCP == "ackown" {
+	// the stream ping is started when the direct wait ends (after ProbeTimeout) and gets what is left of
+	// the probe's deadline: with an interval at or below the timeout nothing is left
+	if (c.TCP == "ackown" || c.TCP == "fornode-other") && c19PT < interval {
 		return c19Expect{true, -1}
 	}
 	if cap := c.Indirect + 1; received > cap {
@@ -107,8 +124,14 @@ func c19RunProbe(t *testing.T, c c19Case) (sig, msg string) {
 		nd, err := newNode("o", ip4(1), func(cf *ml.Config) {
 			cf.IndirectChecks = c.Indirect
 			cf.ProbeTimeout = c19PT
-			cf.ProbeInterval = c19PI
+			cf.ProbeInterval = c.pi()
 			cf.DisableTcpPings = c.TCP == "disabled"
+			switch c.TCP {
+			case "fornode": // the per-node switch says: no stream pings for x
+				cf.DisableTcpPingsForNode = func(name string) bool { return name == "x" }
+			case "fornode-other": // the per-node switch spares x (the stream server acks with the right number)
+				cf.DisableTcpPingsForNode = func(name string) bool { return name != "x" }
+			}
 		})
 		must(err)
 		o := b.track(nd)
@@ -122,7 +145,14 @@ func c19RunProbe(t *testing.T, c c19Case) (sig, msg string) {
 		for o.M.VBroadcasts().NumQueued() > 0 {
 			o.M.VGetBroadcasts(0, 1400)
 		}
-		interval := c19PI * time.Duration(c.Score+1)
+		if c.PriorSusp {
+			o.M.VSuspectNode(&ml.VSuspect{Incarnation: 1, Node: "x", From: "o"})
+			advance(time.Microsecond)
+		}
+		for o.M.VBroadcasts().NumQueued() > 0 {
+			o.M.VGetBroadcasts(0, 1400)
+		}
+		interval := c.pi() * time.Duration(c.Score+1)
 		// TCP fallback server
 		var pingSeq uint32
 		o.T.OnDial = func(a ml.Address, d time.Duration) (net.Conn, error) {
@@ -138,7 +168,7 @@ func c19RunProbe(t *testing.T, c c19Case) (sig, msg string) {
 					return
 				}
 				switch c.TCP {
-				case "ackown", "ackwrong":
+				case "ackown", "ackwrong", "fornode-other":
 					var p ml.VPing
 					if buf[0] != ml.VPingMsg || ml.VDecode(buf[1:n], &p) != nil {
 						return
@@ -151,6 +181,8 @@ func c19RunProbe(t *testing.T, c c19Case) (sig, msg string) {
 					_, _ = c2.Write(out)
 				case "garbage":
 					_, _ = c2.Write([]byte{0xc1, 0xff, 0x00, 0x13})
+				case "ackgarbage": // the right message type, then a body that does not decode
+					_, _ = c2.Write([]byte{ml.VAckRespMsg, 0x82, 0xa5, 'S', 'e', 'q', 'N', 'o', 0xc1})
 				case "stall":
 				}
 			}()
@@ -198,7 +230,7 @@ func c19RunProbe(t *testing.T, c c19Case) (sig, msg string) {
 				sig, msg = "no-ping-sent", c.String()
 			case s.AckHandlers != 0:
 				sig, msg = "pending-probe-record-leaked", fmt.Sprintf("%v: %d pending records one microsecond after the deadline", c, s.AckHandlers)
-			case x.State != ml.StateAlive:
+			case x.State != ml.StateAlive && !c.PriorSusp:
 				sig, msg = "unsent-probe-suspected", fmt.Sprintf("%v: the ping never left this node, yet x is %s", c, recStr(x))
 			case s.Health < c.Score:
 				sig, msg = "health-fell-without-successful-probe", fmt.Sprintf("%v: score %d -> %d although no probe was sent, let alone answered", c, c.Score, s.Health)
@@ -334,11 +366,18 @@ func c19RunProbe(t *testing.T, c c19Case) (sig, msg string) {
 		exp := c19Ref(c)
 		x := findRec(s, "x")
 		suspected := x.State == ml.StateSuspect
-		if exp.Answered && suspected {
+		if c.PriorSusp {
+			// an ack does not lift a suspicion and a further failure of ours adds nothing to it (the
+			// suspicion may run out during the probe: then x is dead at the same incarnation)
+			if x.State == ml.StateAlive || x.Incarnation != 1 {
+				sig, msg = "prior-suspicion-changed-by-probe", fmt.Sprintf("%v: x is %s", c, recStr(x))
+				return
+			}
+		} else if exp.Answered && suspected {
 			sig, msg = "answered-probe-suspected", fmt.Sprintf("%v: an ack with the probe's own number arrived in time but x is %s", c, recStr(x))
 			return
 		}
-		if !exp.Answered && !suspected {
+		if !c.PriorSusp && !exp.Answered && !suspected {
 			sig, msg = "unanswered-probe-not-suspected", fmt.Sprintf("%v: no valid ack arrived in time but x is %s", c, recStr(x))
 			return
 		}
@@ -368,7 +407,7 @@ func c19RunProbe(t *testing.T, c c19Case) (sig, msg string) {
 				nSus++
 			}
 		}
-		if !exp.Answered && nSus != 1 {
+		if !c.PriorSusp && !exp.Answered && nSus != 1 {
 			sig, msg = "suspect-broadcast-count", fmt.Sprintf("%v: %d", c, nSus)
 		}
 		if s.Health < 0 || s.Health > 7 {
@@ -788,6 +827,43 @@ func TestC19(t *testing.T) {
 						run(c19Case{Indirect: 1, HelperPMax: pm, Score: sc, Direct: "none", Helpers: []string{h}, TCP: tc, SendErr: se})
 						run(c19Case{Indirect: 3, HelperPMax: pm, Score: sc, Direct: "none", Helpers: []string{h, "silent", "nack"}, TCP: tc, SendErr: se})
 					}
+				}
+			}
+		}
+	}
+	// the other stream-ping switches and answers
+	for _, tc := range []string{"fornode", "fornode-other", "ackgarbage"} {
+		for _, sc := range []int{0, 3} {
+			for _, d := range []string{"none", "own@pt+", "own@i+", "foreign@1"} {
+				run(c19Case{Indirect: 0, HelperPMax: 5, Score: sc, Direct: d, TCP: tc})
+				for _, h := range []string{"silent", "nack", "ack@i-"} {
+					run(c19Case{Indirect: 1, HelperPMax: 5, Score: sc, Direct: d, Helpers: []string{h}, TCP: tc})
+				}
+			}
+		}
+	}
+	// a probe interval below the probe timeout: the pending record expires while the prober still waits
+	// for the direct ack
+	for _, sc := range []int{0, 1} {
+		for _, d := range []string{"none", "own@1", "own@i-", "own@i+", "own@pt-", "stale@1"} {
+			for _, tc := range []string{"disabled", "refused", "ackown", "stall"} {
+				run(c19Case{Indirect: 0, HelperPMax: 5, Score: sc, Direct: d, TCP: tc, IntervalMs: 120})
+				for _, h := range []string{"silent", "ack@i-", "ack@i+"} {
+					run(c19Case{Indirect: 1, HelperPMax: 5, Score: sc, Direct: d, Helpers: []string{h}, TCP: tc, IntervalMs: 120})
+				}
+			}
+		}
+	}
+	// the target is already under suspicion: the ping travels in a compound with the suspect message
+	for _, sc := range []int{0, 3} {
+		for _, d := range []string{"none", "own@1", "own@pt+", "own@i+", "foreign@1"} {
+			for _, tc := range []string{"disabled", "refused", "ackown"} {
+				for _, se := range []string{"", "local", "remote"} {
+					if se != "" && d != "none" {
+						continue
+					}
+					run(c19Case{Indirect: 0, HelperPMax: 5, Score: sc, Direct: d, TCP: tc, PriorSusp: true, SendErr: se})
+					run(c19Case{Indirect: 1, HelperPMax: 5, Score: sc, Direct: d, Helpers: []string{"nack"}, TCP: tc, PriorSusp: true, SendErr: se})
 				}
 			}
 		}
